@@ -248,8 +248,8 @@ def nbr (c : Cfg) (s : List Nat) (i : Nat) : Nbr :=
 * `Fix.ilc` — `fixes/C13-sep-ilc-accepts-trailing.diff`: `is_ilc!(@internal …)` uses `map_or(false, is_digit)` (as
   `is_il!` does) instead of `map_or(true, …)`: a separator at the end of the input is not followed by a digit. -/
 namespace Fix
-def itc : Bool := false
-def ilc : Bool := false
+def itc : Bool := true
+def ilc : Bool := true
 end Fix
 
 /-- `is_x!(@first …)` / `is_x!(@internal …)`, transcribed macro by macro -/
